@@ -421,12 +421,15 @@ func (o *orc) step(t []string) expct {
 	}
 	L := int64(len(data))
 	switch t[0] {
-	case "write", "writeat":
+	case "write", "writeat", "readfrom":
 		b := payloadOf(t[2])
 		off := h.pos
 		if t[0] == "writeat" {
 			off = int64(atoi(t[3]))
 		} else if !h.posKnown {
+			return o.leave()
+		}
+		if t[0] == "readfrom" && len(b) == 0 { // an empty copy makes no call at all
 			return o.leave()
 		}
 		if !h.canWrite || off < 0 || off > L {
@@ -445,7 +448,7 @@ func (o *orc) step(t []string) expct {
 		}
 		o.objs[h.path] = nd
 		h.dirty = true
-		if t[0] == "write" {
+		if t[0] != "writeat" {
 			h.pos += n
 		} else {
 			h.posKnown = false
